@@ -870,10 +870,13 @@ def simplify_needed(base, case, tier):
     if base not in _SIMPLIFY_TAG:
         key = base.replace("raises:", "").split(":")[0]
         order = (["Riemann_uddd"] if "from-uddd" in base else []) + [key]
-        probe = run_textbook(diag_variant(case, simplify=True, order=order),
-                             tier, budget=6.0)
-        _SIMPLIFY_TAG[base] = (base in probe.checked
-                               and base not in probe.fails)
+        try:
+            probe = run_textbook(diag_variant(case, simplify=True,
+                                              order=order), tier, budget=6.0)
+            _SIMPLIFY_TAG[base] = (base in probe.checked
+                                   and base not in probe.fails)
+        except ZeroDivisionError:      # singular diagonal part: undecided
+            _SIMPLIFY_TAG[base] = False
     return _SIMPLIFY_TAG[base]
 
 
@@ -932,7 +935,14 @@ def tagged_report(run, name, case, note, tier, simplify_probe):
             todo[base] = obs
     if not todo:
         return
-    probe = run(diag_variant(case)) if nd else None
+    try:
+        probe = run(diag_variant(case)) if nd else None
+    except ZeroDivisionError:
+        # the diagonal part alone is singular (e.g. null coordinates with
+        # g_rr = 0): the 'nondiagonal' tag cannot be decided
+        probe = None
+        nd = False
+        note.cls("probe-undecided")
     for base, obs in todo.items():
         tags = []
         if nd:
